@@ -85,3 +85,37 @@ Example C12_nonvacuous :
   /\ var_get (vars s) (hx "78") = Some (VInt 5)
   /\ w_reason [EAssign (TVar (hx "78") []) (ELit (VInt 5)); EOp ODiv (ELit (VInt 10)) (EVar (hx "78"))] = 0%N.
 Proof. vm_compute. auto. Qed.
+
+(* ---------- invariant preservation on the straight-line fragment (Model/TypeFragment.v) ---------- *)
+
+From VRL Require Import Model.KindDomains Model.TypeFragment Proofs.TypeSoundProofs.
+
+Lemma binop_inst_eq3 : forall x y, exists b, binop_inst OEq x y = Some (VBool b).
+Proof. intros x y. eexists. reflexivity. Qed.
+Lemma binop_inst_ne3 : forall x y, exists b, binop_inst ONe x y = Some (VBool b).
+Proof. intros x y. eexists. reflexivity. Qed.
+
+(* The invariant C12_const_sound relies on (consts_ok: every constant the type state holds for a
+   variable is that variable's run-time value) holds at the end of every straight-line program of the
+   fragment of Properties/C01.v — effect-free expressions and their assignments to variables, to paths
+   below known variables and to event / metadata paths — provided no assignment below a variable has a
+   constant right-hand side (const_stmts_ok; that case is the refuted C12_path_assign_refuted).
+   Together with C12_const_sound: any expression the compiler folds after such a program evaluates to
+   the folded value. *)
+Theorem C12_straightline_consts_partial :
+  forall (es : list expr) (ek mk : kind) (event meta : value),
+  es <> [] -> stmts_ok binop_inst T_inst es (ts0 ek mk) = true ->
+  const_stmts_ok binop_inst T_inst es (ts0 ek mk) = true ->
+  member event ek = true -> wf_value event = true -> member meta mk = true -> wf_value meta = true ->
+  consts_ok (fst (program_type_info_inst es (ts0 ek mk))) (snd (run_typed es (st0 [] event meta))).
+Proof. exact (straightline_consts F_typed binop_inst T_inst binop_inst_eq3 binop_inst_ne3). Qed.
+Print Assumptions C12_straightline_consts_partial.
+
+(* the same for one statement from any conforming state, for every function table *)
+Theorem C12_statement_consts_partial :
+  forall (F : fname -> list value -> option value) (T : fname -> list tdef -> list tdef -> tdef)
+         (e : expr) (G : tstate) (s : state),
+  stmt_ok binop_inst T e G = true -> const_stmt_ok binop_inst e G = true -> conf G s -> consts_ok G s ->
+  consts_ok (fst (type_info binop_inst T e G)) (snd (eval F binop_inst e s)).
+Proof. intros F T. exact (stmt_consts F binop_inst T binop_inst_eq3 binop_inst_ne3). Qed.
+Print Assumptions C12_statement_consts_partial.
